@@ -488,15 +488,9 @@ def fr(v: Fraction):
 # ---------------------------------------------------------------------------
 
 def classify_finding(d, name, args, gp, why):
-    """map a Spec violation to a listed known-finding id, if it has exactly that shape"""
-    vals = [operand_value(o) for o in args]
-    fin = all(isinstance(v, Fraction) for v in vals)
-    plus_zero_for_minus = why.endswith('expected zero with sign True, got zero 0')
-    nondyadic = any(isinstance(v, Fraction) and v.denominator & (v.denominator - 1) for v in vals)
-    if name == 'mod' and plus_zero_for_minus and fin and vals[0] != 0 and vals[1] < 0 and (vals[0] / vals[1]).denominator == 1:
-        return 'C02-F1'      # x an exact multiple of a negative y: +0 returned, Python's % gives -0
-    if name in ('mul', 'fma') and plus_zero_for_minus and fin and nondyadic and (vals[0] == 0 or vals[1] == 0):
-        return 'C02-F2'      # zero times a non-dyadic Fraction: the exact engine drops the sign of the zero product
+    """map a Spec violation to a listed known-finding id, if it has exactly that shape.
+    (C02-F1 `mod` zero-remainder sign and C02-F2 zero-times-Fraction sign were repaired in /repo and are ordinary
+    violations again; C02-F3, the exponent range of the MPFR back end, is tagged in `evaluate_range`.)"""
     return None
 
 def proximity(d, sp_exact):
